@@ -52,6 +52,24 @@ def handle (s : S) (i : Nat) (j : Json) : S × List Json :=
           else some (verdictViol i "C05.exit_no_more_than_pro_rata" (Json.mkObj [("pool", pid), ("outDenom", outDenom), ("sharesIn", mkInt sIn),
                  ("totalShares", mkInt po.shares), ("paidOut", mkInt out), ("priceOut", mkInt (pre.denomPrices.get outDenom)), ("poolValue", mkInt v)]))
         | _, _ => none
+      -- joins of NON-oracle pools: the fraction of the pool's shares a join mints is at most the fraction by which it enlarges the
+      -- reserve of some asset it deposits ((1 + d/R)^w − 1 ≤ d/R for a weight w ≤ 1; an all-asset join deposits at least pro rata):
+      -- minted · Rᵢ ≤ S · (dᵢ + 1) for an asset i of the deposit.  Judged when the join is alone on the pool in its block.
+      let jviols := idxd.filterMap fun (k, t) =>
+        let pid := ((fInt? t.f "pool").getD 0).toNat
+        match s.pools.find? (fun p => p.id == pid), pre.ammPools.find? (fun p => p.id == pid) with
+        | some pr, some po =>
+          if t.kind != "amm.join" || t.code != 0 || pr.oracle || po.oracle || (fld t.f "twice") != .null then none else
+          let others := (idxd.filter (fun (k', _) => k' != k)).any (fun (_, t') => touches pr.addr t'.moves)
+          if others || touches pr.addr st.beginMoves || touches pr.addr st.endMoves then none else
+          let minted := (t.moves.filter (fun m => m.kind == "mint" && m.denom == po.shareDenom)).foldl (fun a m => a + m.amt) 0
+          let dep (d : String) : Int := (t.moves.filter (fun m => m.kind == "send" && m.dst == pr.addr && m.denom == d)).foldl (fun a m => a + m.amt) 0
+          let okAsset := po.assets.any fun (d, r) => dep d > 0 && minted * r ≤ po.shares * (dep d + 1)
+          if minted ≤ 0 || okAsset then none
+          else some (verdictViol i "C05.join_no_more_than_deposit_ratio" (Json.mkObj [("pool", pid), ("minted", mkInt minted), ("totalShares", mkInt po.shares),
+                 ("deposits", Json.arr (po.assets.map (fun (d, r) => Json.mkObj [("denom", d), ("reserve", mkInt r), ("deposit", mkInt (dep d))])).toArray)]))
+        | _, _ => none
+      let viols := viols ++ jviols
       -- the premise of all single-sided pricing on oracle pools: the balance the accounted-pool keeper has stored (what TVL,
       -- joins and exits are priced from) is the pool's true accounted balance, at the end of every block
       let base := match (Elys.Drv.AccountedH.project st.obs).find? (fun e => !Elys.Accounted.totalEqB e.2) with
